@@ -513,6 +513,13 @@ static void __attribute__((noinline)) churn_garbage(int n) { for (int i = 0; i <
 ** Array, List, Table and Tree of Ref and a heap Tuple: a helper fills one with references to fresh Ints and returns
 ** only the container.  After enough garbage for several collections the referents are read through the container. */
 static var __attribute__((noinline)) make_ref_holder(int kind, int n) {
+  if (kind == 5) {
+    /* a heap Tuple whose one item is an Array of Ref made outside the collector (new_raw, deleted by hand later) */
+    var inner = new_raw(Array, Ref);
+    var holder = new(Tuple, inner);          /* from here on the Tuple is what makes the Array's contents reachable */
+    for (int i = 0; i < n; i++) { push(inner, $R(new(Int, $I(5000 + i)))); }
+    return holder;
+  }
   var c = kind == 0 ? (var)new(Array, Ref) : kind == 1 ? (var)new(List, Ref) : kind == 2 ? (var)new(Table, Int, Ref) : kind == 3 ? (var)new(Tree, Int, Ref) : (var)new(Tuple);
   for (int i = 0; i < n; i++) {
     var x = new(Int, $I(1000 * kind + i));
@@ -521,14 +528,15 @@ static var __attribute__((noinline)) make_ref_holder(int kind, int n) {
   return c;
 }
 static void containers_of_references(void) {
-  static const char* NAME[5] = { "Array of Ref", "List of Ref", "Table of Ref", "Tree of Ref", "heap Tuple" };
-  var holders[5]; int n = 8 + (int)below(40);
-  for (int k = 0; k < 5; k++) { holders[k] = make_ref_holder(k, n); }
+  static const char* NAME[6] = { "Array of Ref", "List of Ref", "Table of Ref", "Tree of Ref", "heap Tuple", "heap Tuple of an Array of Ref made outside the collector" };
+  var holders[6]; int n = 8 + (int)below(40);
+  for (int k = 0; k < 6; k++) { holders[k] = make_ref_holder(k, n); }
   scrub_stack();
   churn_garbage(1500 + (int)below(1500));
-  for (int k = 0; k < 5; k++) {
+  for (int k = 0; k < 6; k++) {
     int64_t sum = 0, items = 0;
-    if (k == 2 || k == 3) { foreach (key in holders[k]) { sum += c_int(deref(get(holders[k], key))); items++; } }
+    if (k == 5) { var inner = get(holders[k], $I(0)); foreach (x in inner) { sum += c_int(deref(x)); items++; } pop(holders[k]); del_raw(inner); }
+    else if (k == 2 || k == 3) { foreach (key in holders[k]) { sum += c_int(deref(get(holders[k], key))); items++; } }
     else if (k == 4) { foreach (x in holders[k]) { sum += c_int(x); items++; } }
     else { foreach (x in holders[k]) { sum += c_int(deref(x)); items++; } }
     OUT("%s holding the only references to %d Ints: %" PRId64 " items, sum %" PRId64, NAME[k], n, items, sum);
